@@ -85,3 +85,198 @@ Proof.
 Qed.
 
 
+
+(* ---------- iv_fd_epoll_poll ---------- *)
+Lemma epoll_process_OF : forall evs s re tm, OF s (fst (fst (epoll_process s evs re tm))).
+Proof.
+  induction evs as [|[[fd bits] data] evs IH]; intros s re tm; cbn [epoll_process]; [apply OF_refl|].
+  destruct (data =? -1); [apply IH|]. destruct (_ && _); [apply IH|].
+  eapply OF_trans; [apply activate_OF|apply IH].
+Qed.
+
+Lemma OF_TfdM : forall s s', OF s s' -> TfdM s -> TfdM s'.
+Proof. intros s s' [_ E] T. unfold owners in E. unfold TfdM in *. replace (tfd s') with (tfd s) by congruence. replace (method s') with (method s) by congruence. exact T. Qed.
+
+Lemma epoll_poll_O : forall s abs s', InvW s -> Q3 s -> TfdM s -> is_epoll s = true ->
+  fst (epoll_poll sc s abs) = R s' -> ODI s s'.
+Proof.
+  intros s abs s' I Q TM IE. unfold epoll_poll. cbv zeta.
+  destruct (flush_pending_ok (S (length (notify s))) s I IE ltac:(lia)) as (s1 & FL & I1 & _).
+  pose proof (flush_pending_OF (S (length (notify s))) s) as F1. rewrite FL in *. cbn [ARes] in F1.
+  pose proof (OF_TfdM _ _ F1 TM) as TM1. pose proof (ODI_OF _ _ F1) as T1.
+  set (maxev := if method s =? M_ET then numfds s + 1 else if numfds s =? 0 then 1 else numfds s).
+  pose proof (epoll_wait_m_ok sc WF do_action_ok s1 abs maxev I1 TM1) as W.
+  pose proof (epoll_wait_m_O s1 abs maxev I1 TM1) as KW.
+  destruct (epoll_wait_m sc s1 abs maxev) as [s2 evs|s2|r]; cbn [WPost POw fst snd] in *.
+  - destruct W as (I2 & _ & _ & _ & EV2 & RD2). destruct KW as [_ T2].
+    set (s3 := invalidate_now s2).
+    assert (I3 : InvW s3) by (apply InvW_invalidate; exact I2).
+    assert (T03 : ODI s s3) by (eapply ODI_trans; [exact T1|]; eapply ODI_trans; [exact T2|apply ODI_plain; reflexivity]).
+    destruct (epoll_process_ok evs s3 false false I3 EV2) as (I4 & _ & TMR).
+    pose proof (epoll_process_OF evs s3 false false) as K4.
+    destruct (epoll_process s3 evs false false) as [[s4 re] tmr]. cbn [fst snd] in *.
+    assert (T04 : ODI s s4) by (eapply ODI_trans; [exact T03|apply ODI_OF; exact K4]).
+    assert (FIN : forall s5, InvW s5 -> ODI s s5 ->
+              (if re then run_pending_events sc s5 else R s5) = R s' -> ODI s s').
+    { intros s5 I5 T05. destruct re; [|intros E; inversion E; subst; exact T05].
+      pose proof (run_pending_events_O sc WF do_action_ok s5 I5) as P.
+      destruct (run_pending_events sc s5) as [s6|s6]; unfold PO in P; cbn [ARes] in P; [|discriminate].
+      intros E. inversion E; subst. eapply ODI_trans; [exact T05|apply P]. }
+    destruct tmr.
+    + pose proof (kstable_read (kern s4) (tfd s4) 8) as KS. pose proof (KO_read (kern s4) (tfd s4) 8) as KR.
+      destruct (k_read (kern s4) (tfd s4) 8) as [k1 [x|e]] eqn:RD; cbn [fst] in KS, KR; [|cbn [bind halt]; discriminate].
+      cbn [bind]. apply (FIN (set_kern s4 k1)); [apply InvW_kstable; assumption|].
+      eapply ODI_trans; [exact T04|apply ODI_kern; exact KR].
+    + cbn [bind]. apply (FIN s4 I4 T04).
+  - destruct W as (I2 & _). destruct KW as [_ T2]. intros E. inversion E; subst.
+    eapply ODI_trans; [exact T1|]. eapply ODI_trans; [exact T2|apply ODI_plain; reflexivity].
+  - destruct r; [destruct W|discriminate].
+Qed.
+
+(* ---------- the poll(2) / ppoll(2) back ends ---------- *)
+Lemma poll_activate_OF : forall keys revs s, OF s (poll_activate s keys revs).
+Proof.
+  induction keys as [|k keys IH]; intros revs s; cbn [poll_activate]; [apply OF_refl|].
+  destruct revs as [|r revs]; [apply OF_refl|]. eapply OF_trans; [apply activate_OF|apply IH].
+Qed.
+
+Lemma do_poll_wait_O : forall s call timeout s', InvW s -> fst (do_poll_wait sc s call timeout) = R s' -> ODI s s'.
+Proof.
+  intros s call timeout s' I. unfold do_poll_wait.
+  pose proof (wait_enter_O s I) as Q.
+  destruct (wait_enter sc s) as [s1|s1]; [|discriminate]. unfold PO in Q. cbn [ARes] in Q. destruct Q as [_ T1]. cbv zeta.
+  destruct (mem_z _ _); cbn [fst].
+  - intros E. inversion E; subst. eapply ODI_trans; [exact T1|].
+    destruct (0 <? timeout); [|apply ODI_plain; reflexivity].
+    apply ODI_OF. constructor; [apply KO_fields; reflexivity|reflexivity].
+  - unfold k_poll_sleep. cbv zeta.
+    assert (G : forall k1 revs, vfds k1 = vfds (kern s1) ->
+      ODI s (poll_activate (invalidate_now (emit (set_kern (emit s1 (TWait (nwait (kern s1)) call (Z.of_nat (length (pfds s1))) timeout
+         (interest_of_pfds (pfds s1)) (ground (kern s1)))) k1)
+         (TRet (Some (count_nonzero revs)) (reported_pfds (pfds s1) revs) (clock k1)))) (pkeys s1) revs)).
+    { intros k1 revs V. eapply ODI_trans; [exact T1|]. apply ODI_OF.
+      eapply OF_trans; [|apply poll_activate_OF]. constructor; [apply KO_fields; exact V|reflexivity]. }
+    destruct (_ || _); cbn [fst halt].
+    + intros E. inversion E; subst. apply G. reflexivity.
+    + destruct (timeout <? 0); cbn [fst halt]; [discriminate|]. intros E. inversion E; subst. apply G. reflexivity.
+Qed.
+
+Lemma ODI_meth : forall s m, is_epoll (set_method s m) = is_epoll s -> ODI s (set_method s m).
+Proof. intros s m E. constructor; [intros D; exact D|reflexivity|exact E]. Qed.
+
+Lemma poll_poll_O : forall s abs s', InvW s -> is_epoll s = false -> fst (poll_poll sc s abs) = R s' -> ODI s s'.
+Proof.
+  intros s abs s' I IE. unfold poll_poll.
+  assert (V : forall s0, InvW s0 -> ODI s s0 ->
+    fst (let '(s1, ms) := to_msec s0 abs in do_poll_wait sc s1 2 (if ms <? 0 then -1 else ms * 1000000)) = R s' -> ODI s s').
+  { intros s0 I0 T0. unfold to_msec. destruct abs as [a|]; cbn [to_relative].
+    - intros E. eapply ODI_trans; [exact T0|]. apply (ODI_trans _ (validate_now s0)); [apply ODI_OF; apply OF_validate|].
+      apply (do_poll_wait_O _ _ _ _ (InvW_validate s0 I0) E).
+    - intros E. eapply ODI_trans; [exact T0|]. apply (do_poll_wait_O _ _ _ _ I0 E). }
+  destruct (Z.eqb_spec (method s) M_PP) as [MP|MP]; [|apply V; [exact I|apply ODI_refl]].
+  assert (W : forall s1, InvW s1 -> method s1 = M_PP -> ODI s s1 ->
+    (if no_ppoll (flt (kern s1)) then
+       fst (let '(s2, ms) := to_msec (set_method (invalidate_now s1) M_PO) abs in do_poll_wait sc s2 2 (if ms <? 0 then -1 else ms * 1000000))
+     else fst (do_poll_wait sc s1 3 (match snd (to_relative s abs) with Some r => r | None => -1 end))) = R s' -> ODI s s').
+  { intros s1 I1 M1 T1. destruct (no_ppoll _).
+    - apply V.
+      + apply InvW_set_method; [apply InvW_invalidate; exact I1| |unfold M_PO; lia].
+        unfold is_epoll. cbn [method set_method invalidate_now set_time]. rewrite M1. reflexivity.
+      + eapply ODI_trans; [exact T1|]. apply (ODI_trans _ (invalidate_now s1)); [apply ODI_plain; reflexivity|].
+        apply ODI_meth. unfold is_epoll. cbn [method set_method invalidate_now set_time]. rewrite M1. reflexivity.
+    - intros E. eapply ODI_trans; [exact T1|]. apply (do_poll_wait_O _ _ _ _ I1 E). }
+  destruct abs as [a|]; cbn [to_relative].
+  - specialize (W (validate_now s) (InvW_validate s I) ltac:(unfold validate_now; destruct (time_valid s); exact MP)
+                  ltac:(apply ODI_OF; apply OF_validate)).
+    cbn [to_relative snd] in W. destruct (no_ppoll _); exact W.
+  - specialize (W s I MP (ODI_refl s)). cbn [to_relative snd] in W. destruct (no_ppoll _); exact W.
+Qed.
+
+(* ---------- the kernel timer ---------- *)
+Lemma tfd_settime_OF : forall s d, OF s (tfd_settime s d).
+Proof.
+  intros s d. unfold tfd_settime. constructor; [|reflexivity]. cbn [kern emit set_trace set_kern].
+  unfold k_timerfd_settime. unfold k_open. destruct (k_get (kern s) (tfd s)) as [v|] eqn:G; [|apply KO_refl].
+  destruct (vclosed v) eqn:VC; [apply KO_refl|]. eapply KO_put_keep; [exact G|rewrite VC; discriminate].
+Qed.
+
+Lemma set_poll_timeout_O : forall s a s0 fl, method s = M_ET -> set_poll_timeout s a = (R s0, fl) -> ODI s s0.
+Proof.
+  intros s a s0 fl ME. unfold set_poll_timeout.
+  destruct (Z.eqb_spec (tfd s) (-1)) as [E|NE].
+  - unfold k_timerfd_create. destruct (no_timerfd _).
+    + intros H. inversion H; subst. apply (ODI_trans _ (set_kern s (kern s))); [apply ODI_kern; apply KO_refl|].
+      apply ODI_meth. unfold is_epoll. cbn [method set_method set_kern]. rewrite ME. reflexivity.
+    + pose proof (alloc_KOn (kern s) K_TIMERFD) as KA.
+      destruct (k_alloc (kern s) K_TIMERFD) as [fd k1]. cbn [fst snd] in KA. cbv zeta.
+      set (s1 := set_epoll (set_kern s k1) (epfd s) fd (pwait2 s)).
+      destruct (ctl_retry s1 CTL_ADD fd B_IN (-2)) as [s2 e] eqn:C. apply ctl_retry_OF in C.
+      destruct e; [discriminate|]. intros H. inversion H; subst. clear H.
+      assert (T1 : ODI s s1).
+      { constructor; [|reflexivity|reflexivity]. intros D. apply (OD_step [fd] s); [exact D|exact KA| |].
+        - intros x L [H|[H|[H|H]]]; left; unfold Own; cbn [s1 epfd tfd rw_reg rw_rfd rw_wfd active_ref active_fd active_wr set_epoll set_kern].
+          + left. exact H.
+          + rewrite E in H. lia.
+          + right; right; left. exact H.
+          + right; right; right. exact H.
+        - intros x [<-|[]]. right; left. reflexivity. }
+      eapply ODI_trans; [exact T1|]. eapply ODI_trans; [apply ODI_OF; exact C|apply ODI_OF; apply tfd_settime_OF].
+  - intros H. inversion H; subst. apply ODI_OF. apply tfd_settime_OF.
+Qed.
+
+Lemma timeout_check_O : forall s abs s0 fl, method s = M_ET -> timeout_check s abs = (R s0, fl) -> ODI s s0.
+Proof.
+  intros s abs s0 fl ME. unfold timeout_check. cbv zeta.
+  destruct (_ && _); [intros E; inversion E; subst; apply ODI_refl|].
+  set (s1 := if last_abs_count s =? 5 then tfd_settime s 0 else s).
+  assert (T1 : ODI s s1 /\ method s1 = M_ET).
+  { unfold s1. destruct (last_abs_count s =? 5); [split; [apply ODI_OF; apply tfd_settime_OF|exact ME]|split; [apply ODI_refl|exact ME]]. }
+  destruct T1 as [T1 M1].
+  destruct (abs_cmp abs (last_abs s) =? 0).
+  - set (s2 := if last_abs_count s1 <? 5 then _ else s1).
+    assert (T2 : ODI s s2 /\ method s2 = M_ET).
+    { unfold s2. destruct (last_abs_count s1 <? 5); [|split; assumption].
+      split; [eapply ODI_trans; [exact T1|apply ODI_plain; reflexivity]|exact M1]. }
+    destruct T2 as [T2 M2].
+    destruct (last_abs_count s2 =? 5); [|intros E; inversion E; subst; exact T2].
+    destruct abs as [a|]; [|intros E; inversion E; subst; exact T2].
+    intros E. eapply ODI_trans; [exact T2|apply (set_poll_timeout_O s2 a s0 fl M2 E)].
+  - destruct abs as [a|]; intros E; inversion E; subst; (eapply ODI_trans; [exact T1|apply ODI_plain; reflexivity]).
+Qed.
+
+(* ---------- iv_fd_poll_and_run ---------- *)
+Lemma poll_and_run_O : forall s abs s', LoopInv s -> fst (poll_and_run sc s abs) = R s' -> ODI s s'.
+Proof.
+  intros s abs s' (I & Q & TM & AC). unfold poll_and_run.
+  assert (DISP : forall s1, InvW s1 -> ODI s s1 -> dispatch_active sc (S (length (active s1))) s1 = R s' -> ODI s s').
+  { intros s1 I1 T1 E. pose proof (dispatch_active_O sc WF do_action_ok (S (length (active s1))) s1 I1) as P.
+    rewrite E in P. unfold PO in P. cbn [ARes] in P. eapply ODI_trans; [exact T1|apply P]. }
+  assert (MP : forall s0 a r rt, InvW s0 -> Q3 s0 -> TfdM s0 -> ODI s s0 -> m_poll sc s0 a = (r, rt) ->
+            forall s1, r = R s1 -> InvW s1 /\ ODI s s1).
+  { intros s0 a r rt I0 Q0 TM0 T0 E s1 ->. unfold m_poll in E. destruct (is_epoll s0) eqn:IE0.
+    - pose proof (epoll_poll_ok sc WF do_action_ok s0 a I0 Q0 TM0 IE0) as PP. rewrite E in PP. cbn [fst okr] in PP.
+      split; [apply PP|]. eapply ODI_trans; [exact T0|]. apply (epoll_poll_O s0 a s1 I0 Q0 TM0 IE0). rewrite E. reflexivity.
+    - pose proof (poll_poll_ok sc WF do_action_ok s0 a I0 Q0 TM0 IE0) as PP. rewrite E in PP. cbn [fst okr] in PP.
+      split; [apply PP|]. eapply ODI_trans; [exact T0|]. apply (poll_poll_O s0 a s1 I0 IE0). rewrite E. reflexivity. }
+  destruct (Z.eqb_spec (method s) M_ET) as [ME|NE].
+  - pose proof (timeout_check_ok sc WF do_action_ok s abs I ME) as TC.
+    destruct (timeout_check s abs) as [[s0|s0] fl] eqn:TCE; cbn [fst okr] in TC; [|cbn [fst bind]; discriminate].
+    destruct TC as (I0 & F0 & TM0 & IE0).
+    pose proof (timeout_check_O s abs s0 fl ME TCE) as T0. pose proof (TcFr_Q3 _ _ F0 Q) as Q0.
+    destruct fl.
+    + destruct (m_poll sc s0 None) as [r rt] eqn:MPE. cbn [fst].
+      destruct r as [s1|s1]; cbn [bind]; [|discriminate].
+      destruct (MP s0 None (R s1) rt I0 Q0 TM0 T0 MPE s1 eq_refl) as [I1 T1].
+      destruct rt.
+      * apply DISP; [apply (InvW_coresame s1); [constructor; reflexivity|apply (ms_nobad _ (iw_misc _ I1))|exact I1]|].
+        eapply ODI_trans; [exact T1|apply ODI_plain; reflexivity].
+      * apply DISP; assumption.
+    + destruct (m_poll sc s0 abs) as [r rt] eqn:MPE. cbn [fst].
+      destruct r as [s1|s1]; cbn [bind]; [|discriminate].
+      destruct (MP s0 abs (R s1) rt I0 Q0 TM0 T0 MPE s1 eq_refl) as [I1 T1]. apply DISP; assumption.
+  - destruct (m_poll sc s abs) as [r rt] eqn:MPE. cbn [fst].
+    destruct r as [s1|s1]; cbn [bind]; [|discriminate].
+    destruct (MP s abs (R s1) rt I Q TM (ODI_refl s) MPE s1 eq_refl) as [I1 T1]. apply DISP; assumption.
+Qed.
+
+End Wait.
